@@ -145,5 +145,26 @@ ObsOfPairs(c, prs) ==
      m1 |-> [t \in DOMAIN prs |-> prs[t][1]], m2 |-> [t \in DOMAIN prs |-> prs[t][2]],
      d  |-> [t \in DOMAIN prs |-> [on |-> TRUE, v |-> HsSep(c.kind, c.p1[prs[t][1] + 1], c.p2[prs[t][2] + 1])]]]
 RefObs(c) == ObsOfPairs(c, RefFrom(c, 1))
+
+\* ---- the scale law ------------------------------------------------------------------
+\* A group depends on its own first-set point (and radius) only: the result for a concatenated first set is the
+\* concatenation of the results for the parts, first indices shifted.  Checked by TLC on the small scope
+\* (HtmMatchMC: ConcatLaw); the harness judges first sets of 2^16 and more points through it, from parts small
+\* enough for the exact oracle.
+SubCall(c, lo, hi) == [c EXCEPT !.p1 = SubSeq(c.p1, lo, hi),
+                                !.rad = IF Len(c.rad) = 1 THEN c.rad ELSE SubSeq(c.rad, lo, hi)]
+ShiftPairs(prs, n) == [t \in DOMAIN prs |-> <<prs[t][1] + n, prs[t][2]>>]
+ConcatLawAt(c, n) == RefFrom(c, 1) = RefFrom(SubCall(c, 1, n), 1) \o ShiftPairs(RefFrom(SubCall(c, n + 1, N1(c)), 1), n)
+ConcatLaw(c) == \A n \in 1..(N1(c) - 1) : ConcatLawAt(c, n)
+\* and acceptance is group-wise too: what is accepted for the whole is accepted, restricted, for each part
+RestrictObs(o, lo, hi) ==
+    LET pos == VSortSet({t \in DOMAIN o.m1 : o.m1[t] + 1 \in lo..hi})
+        apos == VSortSet({t \in DOMAIN o.all1 : o.all1[t] + 1 \in lo..hi})
+    IN [o EXCEPT !.m1 = [n \in DOMAIN pos |-> o.m1[pos[n]] - (lo - 1)], !.m2 = [n \in DOMAIN pos |-> o.m2[pos[n]]],
+                 !.d = [n \in DOMAIN pos |-> o.d[pos[n]]],
+                 !.all1 = [n \in DOMAIN apos |-> o.all1[apos[n]] - (lo - 1)], !.all2 = [n \in DOMAIN apos |-> o.all2[apos[n]]]]
+AcceptLaw(c, o) == (o.via = "mem" /\ Accept(c, o)) =>
+    \A n \in 1..(N1(c) - 1) : /\ Accept(SubCall(c, 1, n), RestrictObs(o, 1, n))
+                               /\ Accept(SubCall(c, n + 1, N1(c)), RestrictObs(o, n + 1, N1(c)))
 MaxGroup(c) == VSetMax({Cardinality(May(c, i)) : i \in 1..N1(c)})
 =============================================================================
